@@ -127,6 +127,16 @@ def ob_cache_step(v: int, perr: bool, pvol: bool, pcaching: bool, pvar: int, pre
         if clause == "C04":
             ok = ok and outcome(out) == outcome(ref)
             ok = ok and all(c is cache for (qq, c, kw) in c1.asked if qq == ptext)
+            if hit and not out.is_error:
+                # a warm cache stays transparent after the caller used what it was served (history Q, <use of the result>, Q)
+                out.metadata["filename"] = "tampered.bin"
+                out.metadata["extension"] = "bin"
+                out.metadata["vars"]["tampered"] = 1
+                if isinstance(out.data, Box):
+                    out.data.v = out.data.v + 1000
+                c2 = HContext(cache, _substates(qi, v, perr, pvol, pcaching, pvar))
+                again = c2.evaluate(q, extra_parameters=extras)
+                ok = ok and outcome(again) == outcome(ref)
         elif clause == "C09":
             if hit:
                 ok = ok and calls == [] and c1.asked == [] and outcome(out) == outcome(keyref)
